@@ -311,20 +311,43 @@ func resolveSel(sel string, v Val) (Val, bool) {
 	return cur, true
 }
 
+// globModel: the glob language written down from its definition: an unescaped * stands for any
+// (possibly empty) sequence, a backslash makes the next character literal, every other character
+// stands for itself - whatever characters the string holds. (A pattern ending in a lone
+// backslash is never generated.)
 func globModel(pat, s string) bool {
-	// pattern over [a-z*]: classical * wildcard
-	if pat == "" {
-		return s == ""
+	type tok struct {
+		star bool
+		c    byte
 	}
-	if pat[0] == '*' {
-		for i := 0; i <= len(s); i++ {
-			if globModel(pat[1:], s[i:]) {
-				return true
-			}
+	var toks []tok
+	for i := 0; i < len(pat); i++ {
+		switch {
+		case pat[i] == '\\' && i+1 < len(pat):
+			i++
+			toks = append(toks, tok{c: pat[i]})
+		case pat[i] == '*':
+			toks = append(toks, tok{star: true})
+		default:
+			toks = append(toks, tok{c: pat[i]})
 		}
-		return false
 	}
-	return s != "" && s[0] == pat[0] && globModel(pat[1:], s[1:])
+	var m func(ti, si int) bool
+	m = func(ti, si int) bool {
+		if ti == len(toks) {
+			return si == len(s)
+		}
+		if toks[ti].star {
+			for k := si; k <= len(s); k++ {
+				if m(ti+1, k) {
+					return true
+				}
+			}
+			return false
+		}
+		return si < len(s) && s[si] == toks[ti].c && m(ti+1, si+1)
+	}
+	return m(0, 0)
 }
 
 func cmpNum(op string, a, b Val) bool {
